@@ -269,8 +269,14 @@ class _Publish(Client):
                 o = val.elts[1]
                 if isinstance(o, ast.Name):
                     d = self.flow.single_def(o) if ctx.func is self.f else None
-                    if d is not None and isinstance(d.value, ast.Call) and isinstance(d.value.func, ast.Attribute) \
-                            and d.value.func.attr == "tell":
+                    dv = d.value if d is not None else None
+                    hops = 0
+                    while isinstance(dv, ast.Name) and hops < 4 and ctx.func is self.f:      # offset = <result of the inlined helper>
+                        d2 = self.flow.single_def(dv)
+                        dv = d2.value if d2 is not None else None
+                        hops += 1
+                    if d is not None and isinstance(dv, ast.Call) and isinstance(dv.func, ast.Attribute) \
+                            and dv.func.attr == "tell":
                         off_ok = tell
                     elif d is None and ctx.func is not self.f:
                         off_ok = tell
@@ -478,6 +484,19 @@ def r5_reset(prog, rep: Report, sf: StorageFacts):
                     resets[d[1]] = n.value
                 elif d and d[0] == sn and len(d) == 3 and d[2] == "value":
                     resets[d[1]] = n.value
+    # `del self.x[:]` and `self.x.clear()` empty the list in place: the same reset as `self.x[:] = []`
+    for n in walk_own(f.node):
+        if isinstance(n, ast.Delete):
+            for t in n.targets:
+                if isinstance(t, ast.Subscript) and isinstance(t.slice, ast.Slice) and t.slice.lower is None and t.slice.upper is None \
+                        and t.slice.step is None:
+                    d = dotted(t.value)
+                    if d and len(d) == 2 and d[0] == sn:
+                        resets.setdefault(d[1], ast.copy_location(ast.List(elts=[], ctx=ast.Load()), n))
+        if isinstance(n, ast.Call) and isinstance(n.func, ast.Attribute) and n.func.attr == "clear" and not n.args:
+            d = dotted(n.func.value)
+            if d and len(d) == 2 and d[0] == sn:
+                resets.setdefault(d[1], ast.copy_location(ast.List(elts=[], ctx=ast.Load()), n))
     scen = "with storage: ...store...; close(); flush(); storage[0] = 'x' must work like on a new storage"
     for fld in sorted(mutated):
         if fld == sf.lock:
